@@ -424,10 +424,104 @@ class Exec:
         return [st]
 
     def x_DeclareHandler(self, node, st):
-        raise Undecided('DECLARE HANDLER (cursor loops are handled through the contract of the routine)')
+        conds = [str(c).upper() for c in (node.conditions or [])]
+        if node.kind.upper() != 'CONTINUE' or not any('NOT FOUND' in c for c in conds) or not isinstance(node.stmt, A.Set):
+            raise Undecided('handler other than CONTINUE HANDLER FOR NOT FOUND SET <flag>')
+        if not hasattr(st, 'handlers'):
+            st.handlers = {}
+        st.handlers['NOT FOUND'] = node.stmt
+        return [st]
 
     def x_DeclareCursor(self, node, st):
-        raise Undecided('DECLARE CURSOR')
+        if not hasattr(st, 'cursors'):
+            st.cursors = {}
+        st.cursors[node.name.lower()] = node.select
+        return [st]
+
+    def x_Open(self, node, st):
+        return [st]
+
+    def x_Close(self, node, st):
+        return [st]
+
+    def x_Loop(self, node, st):
+        """cursor loop  `L: LOOP FETCH c INTO v..; IF done THEN LEAVE L; END IF; <body> END LOOP`  whose iterations are independent
+        (each writes only rows keyed by its own cursor row, and does not read the columns it writes): executed once for an
+        arbitrary cursor row and applied as a pointwise transformer over all cursor rows."""
+        body = node.body.stmts if isinstance(node.body, A.Block) else [node.body]
+        if len(body) < 2 or not isinstance(body[0], A.Fetch) or not isinstance(body[1], A.If):
+            raise Undecided('LOOP that is not a cursor loop')
+        fetch, leave_if = body[0], body[1]
+        leave_ok = len(leave_if.branches) == 1 and leave_if.orelse is None and any(isinstance(x, A.Leave) for x in leave_if.branches[0][1].walk())
+        cursors = getattr(st, 'cursors', {})
+        handler = getattr(st, 'handlers', {}).get('NOT FOUND')
+        if not leave_ok or fetch.cursor.lower() not in cursors or handler is None:
+            raise Undecided('cursor loop shape')
+        sel = cursors[fetch.cursor.lower()]
+        rest = body[2:]
+        written_cols = set()
+        for stn in rest:
+            for n in stn.walk():
+                if isinstance(n, A.Update):
+                    written_cols |= {t.parts[-1] for t, _ in n.assignments}
+                elif isinstance(n, (A.Insert, A.Delete, A.Call, A.Loop)):
+                    raise Undecided('cursor loop body with INSERT/DELETE/CALL/LOOP')
+        for stn in rest:
+            for n in stn.walk():
+                if isinstance(n, A.SelectStmt):
+                    names = {x.parts[-1] for x in n.select.walk() if isinstance(x, A.Name)}
+                    if names & written_cols:
+                        raise Undecided('cursor loop iterations are not independent (body reads a column it writes: %s)' % sorted(names & written_cols))
+        it = st.fork()
+        aliases, cond, kv = self.bind_from(sel.from_, sel.where, Scope(it), it)
+        vals = [self.ev(c.expr, Scope(it, aliases)) for c in sel.columns]
+        if len(kv) != 1 or not z3.is_int(kv[0]):
+            raise Undecided('cursor whose rows are not identified by one free key column')
+        cur = kv[0]
+        it.pc.append(cond)
+        self.assign_into(fetch.into, vals, it)
+        base_pc = len(it.pc)
+        base_eff = len(it.effects)
+        outs = self.exec_block(rest, it)
+        per_table = {}
+        for s2 in outs:
+            if s2.outcome is not None:
+                raise Undecided('cursor loop body leaves/signals')
+            pcond = z3.And(*s2.pc[base_pc:]) if len(s2.pc) > base_pc else z3.BoolVal(True)
+            for e in s2.effects[base_eff:]:
+                if e.kind in ('result', 'tx'):
+                    continue
+                if e.kind != 'update':
+                    raise Undecided('cursor loop body effect %s' % e.kind)
+                per_table.setdefault(e.table, []).append((pcond, e))
+        # after the loop the handler has fired
+        for s_h in self.exec_stmt(handler, st):
+            st = s_h
+        for tname, items in per_table.items():
+            t2 = st.db.tab(tname)
+            kvars = [z3.Const(fresh('lp_%s_%s' % (tname, c)), t2.ksorts[i]) for i, c in enumerate(t2.pk)]
+            for pcond, e in items:
+                key = e.data['key']
+                pos = [i for i, k in enumerate(key) if k.eq(cur)]
+                if len(pos) != 1 or any(_mentions(k, [cur]) for i, k in enumerate(key) if i != pos[0]):
+                    raise Undecided('cursor loop writes a row not keyed by the cursor row')
+                sub = [(cur, kvars[pos[0]])]
+                affected = z3.And(z3.substitute(z3.And(cond, pcond), *sub), *[kvars[i] == key[i] for i in range(len(key)) if i != pos[0]], t2.has(kvars))
+                new_vals = {}
+                for c in e.data['assigned']:
+                    v = e.data['new'][c]
+                    nv = SV(z3.substitute(v.n, *sub), z3.substitute(v.v, *sub))
+                    new_vals[c] = nv
+                    vv = z3.ToReal(nv.v) if t2.real[c] and z3.is_int(nv.v) else nv.v
+                    t2.val[c] = z3.Lambda(kvars, z3.If(affected, vv, z3.Select(t2.val[c], *kvars)))
+                    if t2.nullable(c):
+                        t2.null[c] = z3.Lambda(kvars, z3.If(affected, nv.n, z3.Select(t2.null[c], *kvars)))
+                old_row_k = {c: self.tables_row(st, tname, kvars, c) for c in t2.cols}
+                st.emit(Effect('loop-set', tname, {'kvars': kvars, 'affected': affected, 'new': new_vals, 'assigned': list(e.data['assigned']), 'cursor_var': kvars[pos[0]], 'line': e.line}, node.line if hasattr(node, 'line') else 0, st.depth))
+        return [st]
+
+    def tables_row(self, st, tname, key, c):
+        return st.db.tab(tname).get(key, c)
 
     def x_Set(self, node, st):
         for target, e in node.assignments:
@@ -572,6 +666,40 @@ class Exec:
                     return True
         return bool(sel.group_by)
 
+    def aggregate_select(self, sel, outer: 'Scope', st):
+        """SELECT <group cols / aggregates> FROM ... WHERE ... [GROUP BY ...]  ->  (computed columns, group variables,
+        presence condition).  Every SUM/COUNT becomes a fresh integer symbol recorded in st.aggregates together with the
+        predicate (kvars, cond) selecting the summed rows and the summand; obligations about sums are then discharged
+        pointwise on those predicates (meta-lemma L2)."""
+        if sel.having is not None or sel.limit is not None:
+            raise Undecided('HAVING / LIMIT in an aggregate')
+        aliases, cond, kv = self.bind_from(sel.from_, sel.where, outer, st)
+        sc_in = Scope(st, aliases, outer)
+        gterms = [self.ev(g, sc_in) for g in (sel.group_by or [])]
+        gvars = [z3.Const(fresh('grp'), g.v.sort()) for g in gterms]
+        gcond = z3.And(cond, *[z3.And(z3.Not(g.n), g.v == gv) for g, gv in zip(gterms, gvars)]) if gterms else cond
+        prev = getattr(self, '_agg_ctx', None)
+        self._agg_ctx = {'scope': sc_in, 'kvars': kv, 'cond': gcond, 'records': [], 'grouped': bool(gterms)}
+        computed = {}
+        order = []
+        try:
+            for i, c in enumerate(sel.columns):
+                nm = c.alias or (c.expr.parts[-1] if isinstance(c.expr, A.Name) else 'col%d' % i)
+                v = self.ev(c.expr, sc_in)
+                # a selected group column is constant on the group: express it through the group variable
+                for g, gv in zip(gterms, gvars):
+                    if v.v.eq(g.v):
+                        v = SV(False, gv)
+                if (_mentions(v.v, kv) or _mentions(v.n, kv)) and kv:
+                    raise Undecided('selected column %s is neither a group column nor an aggregate' % nm)
+                computed[nm] = v
+                order.append(nm)
+            records = self._agg_ctx['records']
+        finally:
+            self._agg_ctx = prev
+        present = (z3.Exists(kv, gcond) if kv else gcond) if gterms else z3.BoolVal(True)
+        return computed, order, gvars, present, records
+
     def select_into(self, sel, st):
         if sel.from_ is None:
             sc = Scope(st)
@@ -579,16 +707,10 @@ class Exec:
             self.assign_into(sel.into, vals, st)
             return [st]
         if self.has_aggregate(sel):
-            vals = []
-            for c in sel.columns:
-                only_count = isinstance(c.expr, A.Func) and c.expr.name == 'COUNT'
-                coalesced = isinstance(c.expr, A.Func) and c.expr.name in ('COALESCE', 'IFNULL')
-                v = fresh_sv('agg', nullable=not (only_count or coalesced))
-                if only_count:
-                    st.pc.append(v.v >= 0)
-                vals.append(v)
-            st.aggregates.append({'select': sel, 'values': vals, 'vars': dict(st.vars), 'db': st.db.fork(), 'line': sel.line})
-            self.assign_into(sel.into, vals, st)
+            if sel.group_by:
+                raise Undecided('SELECT ... GROUP BY ... INTO')
+            computed, order, gvars, present, recs = self.aggregate_select(sel, Scope(st), st)
+            self.assign_into(sel.into, [computed[n] for n in order], st)
             return [st]
         aliases, cond, keyvars = self.bind_from(sel.from_, sel.where, Scope(st), st)
         sc = Scope(st, aliases)
@@ -687,7 +809,33 @@ class Exec:
                     conds.extend(truthy(self.ev(c, sc_on)) for c in on_conj)
             elif isinstance(item, A.SubqueryRef):
                 sub = item.select
-                if not isinstance(sub, A.Select) or sub.group_by or sub.having or sub.limit is not None or self.has_aggregate(sub):
+                if not isinstance(sub, A.Select):
+                    raise Undecided('derived table %s is not a plain SELECT' % item.alias)
+                if self.has_aggregate(sub):
+                    sc0 = Scope(st, aliases, outer)
+                    computed, order, gvars, present, recs = self.aggregate_select(sub, sc0, st)
+                    if kind == 'LEFT':
+                        ref0 = DerivedRef(computed, z3.BoolVal(True))
+                        sc_on = Scope(st, dict(aliases, **{item.alias: ref0}), outer)
+                        on_c = [truthy(self.ev(c, sc_on)) for c in on_conj]
+                        # the ON clause must pin every group variable (one optional group per left row)
+                        pinned = self.point_key(z3.And(*on_c) if on_c else z3.BoolVal(True), gvars) if gvars else ([], None)
+                        if pinned is None:
+                            raise Undecided('LEFT JOIN of an aggregated derived table whose groups are not pinned by ON')
+                        sub_ = list(zip(gvars, pinned[0]))
+                        comp2 = {k: SV(z3.substitute(v.n, *sub_), z3.substitute(v.v, *sub_)) if sub_ else v for k, v in computed.items()}
+                        pres2 = z3.substitute(present, *sub_) if sub_ else present
+                        for r_ in recs:
+                            r_['cond'] = z3.substitute(r_['cond'], *sub_) if sub_ else r_['cond']
+                        aliases[item.alias] = DerivedRef(comp2, pres2)
+                    else:
+                        keyvars.extend(gvars)
+                        aliases[item.alias] = DerivedRef(computed, z3.BoolVal(True))
+                        conds.append(present)
+                        sc_on = Scope(st, aliases, outer)
+                        conds.extend(truthy(self.ev(c, sc_on)) for c in on_conj)
+                    continue
+                if sub.group_by or sub.having or sub.limit is not None:
                     raise Undecided('derived table %s is not a plain SELECT' % item.alias)
                 sc0 = Scope(st, aliases, outer)
                 in_aliases, in_cond, in_kv = self.bind_from(sub.from_, sub.where, sc0, st)
@@ -1158,14 +1306,20 @@ class Exec:
         -> for every source row (kvars satisfying cond): target key terms, inserted values, and per updated column the
         increment applied on the duplicate branch, with the goal 'increment == inserted value' (additivity)"""
         tab = st.db.tab(tname)
-        if self.has_aggregate(sel) or sel.group_by or sel.limit is not None:
-            raise Undecided('aggregating source')
-        if sel.from_ is not None:
-            aliases, cond, kv = self.bind_from(sel.from_, sel.where, Scope(st), st)
+        if sel.limit is not None:
+            raise Undecided('LIMIT in source')
+        agg_records = []
+        if self.has_aggregate(sel):
+            computed, order, gvars, present, agg_records = self.aggregate_select(sel, Scope(st), st)
+            aliases, cond, kv = {}, present, list(gvars)
+            vals = [computed[n] for n in order]
         else:
-            aliases, cond, kv = {}, z3.BoolVal(True), []
-        sc = Scope(st, aliases)
-        vals = [self.ev(c.expr, sc) for c in sel.columns]
+            if sel.from_ is not None:
+                aliases, cond, kv = self.bind_from(sel.from_, sel.where, Scope(st), st)
+            else:
+                aliases, cond, kv = {}, z3.BoolVal(True), []
+            sc = Scope(st, aliases)
+            vals = [self.ev(c.expr, sc) for c in sel.columns]
         if len(vals) != len(cols):
             raise Undecided('column count')
         given = dict(zip(cols, vals))
@@ -1182,7 +1336,7 @@ class Exec:
             incs[c] = SV(r.n, a - b)
             g1, g2 = _num2(a - b, given[c].v)
             goals.append((c, z3.And(z3.Not(r.n), z3.Not(given[c].n), g1 == g2)))
-        return {'kvars': kv, 'cond': cond, 'key': {c: given[c] for c in tab.pk}, 'values': given, 'increments': incs, 'additivity_goals': goals, 'pc_len_': len(st.pc), 'updated_cols': [t.parts[-1] for t, _ in node.on_duplicate or []]}
+        return {'kvars': kv, 'cond': cond, 'key': {c: given[c] for c in tab.pk}, 'values': given, 'increments': incs, 'additivity_goals': goals, 'pc_len_': len(st.pc), 'updated_cols': [t.parts[-1] for t, _ in node.on_duplicate or []], 'aggregates': agg_records}
 
     # ---- expressions
     def ev(self, e, sc: Scope) -> SV:
@@ -1325,6 +1479,24 @@ class Exec:
     def e_Func(self, e, sc):
         name = e.name.upper()
         st = sc.st
+        actx = getattr(self, '_agg_ctx', None)
+        if name in ('SUM', 'COUNT') and actx is not None:
+            arg = None
+            if not e.star and e.args:
+                arg = self.ev(e.args[0], actx['scope'])
+            sym = z3.Int(fresh('agg_%s' % name.lower()))
+            rec = {'func': name, 'arg': arg, 'symbol': sym, 'kvars': actx['kvars'], 'cond': actx['cond'], 'line': getattr(e, 'line', 0), 'expr': e.to_sql() if hasattr(e, 'to_sql') else name}
+            actx['records'].append(rec)
+            st.aggregates.append(rec)
+            if name == 'COUNT':
+                st.pc.append(sym >= 0)
+                return SV(False, sym)
+            if actx['grouped']:
+                return SV(arg.n if arg is not None else z3.BoolVal(False), sym) if False else SV(False, sym)
+            empty = z3.Not(z3.Exists(actx['kvars'], actx['cond'])) if actx['kvars'] else z3.Not(actx['cond'])
+            return SV(empty, sym)
+        if name in ('MAX', 'MIN', 'AVG') and actx is not None:
+            raise Undecided('%s aggregate' % name)
         if name in ('IFNULL', 'COALESCE'):
             args = [self.ev(a, sc) for a in e.args]
             res = args[-1]
@@ -1391,9 +1563,10 @@ class Exec:
         if not isinstance(sel, A.Select) or len(sel.columns) != 1:
             raise Undecided('scalar subquery shape')
         if self.has_aggregate(sel):
-            v = fresh_sv('agg')
-            sc.st.aggregates.append({'select': sel, 'values': [v], 'vars': dict(sc.st.vars), 'db': sc.st.db.fork(), 'line': sel.line})
-            return v
+            if sel.group_by:
+                raise Undecided('scalar subquery with GROUP BY')
+            computed, order, gvars, present, recs = self.aggregate_select(sel, sc, sc.st)
+            return computed[order[0]]
         aliases, cond, kv = self.bind_from(sel.from_, sel.where, sc, sc.st)
         val = self.ev(sel.columns[0].expr, Scope(sc.st, aliases, sc))
         if kv:
